@@ -38,7 +38,7 @@ TraceInit == Init /\ v2 /\ remote = RemoteAt(FALSE) /\ l = 1 /\ idOf = <<>> /\ r
 \* the model has no step for these lines
 Skipped == {"relay", "srvStatus", "read", "readErr", "writeCall", "writeRet", "writeErr",
             "closeRet", "harnessNote", "cfg", "pause", "resume", "relayFault", "note",
-            "expect"}
+            "expect", "kitWrite", "faultsEnd", "end"}
 
 TReset ==
     /\ Is("reset") /\ Adv
